@@ -551,10 +551,13 @@ pub fn gen_wop(rng: &mut Rng, tm: &Tm, root_is_limit: bool) -> J {
             J::obj().set("op", "limit_tmp").set("lim", lim).set("inner", inner)
         }
         7 => {
-            let inner = match rng.below(3) {
+            let inner = match rng.below(4) {
                 0 => put_typed(rng),
                 1 => J::obj().set("op", "put_slice").set("seed", rng.next_u64()).set("n", rng.range(0, 30)),
-                _ => J::obj().set("op", "put_bytes").set("val", rng.below(256)).set("n", rng.range(0, 30)),
+                2 => J::obj().set("op", "put_bytes").set("val", rng.below(256)).set("n", rng.range(0, 30)),
+                // fill the rest of the first half and the head of the second through chunk_mut(),
+                // then commit both with one advance_mut
+                _ => J::obj().set("op", "cross").set("seed", rng.next_u64()).set("k", rng.range(0, 12)),
             };
             J::obj().set("op", "chain_tmp").set("cap2", rng.range(0, 12)).set("inner", inner)
         }
@@ -564,6 +567,48 @@ pub fn gen_wop(rng: &mut Rng, tm: &Tm, root_is_limit: bool) -> J {
             } else {
                 put_typed(rng)
             }
+        }
+    }
+}
+
+/// One `advance_mut` that crosses from the first half of a chain into the second: the
+/// rest of `a` (when it is one contiguous chunk) and up to `k` bytes of `b` are initialised
+/// through `chunk_mut()` / `last_mut().chunk_mut()` and committed together.
+fn cross_write<A: BufMut, Bm: BufMut>(cx: &mut WCtx, c: &mut Chain<A, Bm>, sub: &mut Tm, written: &mut Vec<u8>, op: &J) -> WFlow {
+    let a_rem = c.first_ref().remaining_mut();
+    let k_want = op.us("k");
+    if a_rem == 0 || a_rem > 4096 {
+        cx.hit("cross_not_applicable");
+        return WFlow::Continue;
+    }
+    let data = Rng::new(op.u64("seed")).bytes(a_rem + k_want);
+    let r = catch_unwind(AssertUnwindSafe(|| {
+        let ch = c.chunk_mut();
+        if ch.len() < a_rem {
+            return None; // the room of the first half is not one contiguous chunk
+        }
+        ch[..a_rem].copy_from_slice(&data[..a_rem]);
+        let cb = c.last_mut().chunk_mut();
+        let k = k_want.min(cb.len());
+        cb[..k].copy_from_slice(&data[a_rem..a_rem + k]);
+        unsafe { c.advance_mut(a_rem + k) };
+        Some(k)
+    }));
+    match r {
+        Ok(None) => {
+            cx.hit("cross_not_applicable");
+            WFlow::Continue
+        }
+        Ok(Some(k)) => {
+            written.extend_from_slice(&data[..a_rem + k]);
+            sub.write(a_rem + k);
+            cx.hit(if k > 0 { "chain_advance_mut_crossed" } else { "chain_advance_mut_filled_first" });
+            WFlow::Continue
+        }
+        Err(p) => {
+            cx.panics += 1;
+            cx.v(&["C11", "C12"], "chain-advance_mut-panicked", format!("chain_mut(tmp): advance_mut({} + k) over initialised room panicked: {}", a_rem, rt::panic_message(&*p)));
+            WFlow::End
         }
     }
 }
@@ -667,6 +712,7 @@ fn do_wop<B: BufMut>(cx: &mut WCtx, b: &mut B, tm: &mut Tm, written: &mut Vec<u8
     };
     let n = if name == "put_bytes" { op.us("n") } else { bytes.len() };
     let fits = n <= rem;
+    let mut oob_accepted: Option<&'static str> = None;
     let r = catch_unwind(AssertUnwindSafe(|| match name {
         "put" => {
             let v = ((op.u64("hi") as u128) << 64) | op.u64("lo") as u128;
@@ -685,6 +731,24 @@ fn do_wop<B: BufMut>(cx: &mut WCtx, b: &mut B, tm: &mut Tm, written: &mut Vec<u8
         }
         _ => {
             // "manual": chunk_mut + UninitSlice API + advance_mut, chunk by chunk
+            if op.u64("seed") % 3 == 0 {
+                // the safe UninitSlice API refuses everything that reaches past the chunk
+                let c = b.chunk_mut();
+                let l = c.len();
+                let too_long = vec![0x77u8; l + 1];
+                if catch_unwind(AssertUnwindSafe(|| c.write_byte(l, 0x77))).is_ok() {
+                    oob_accepted = Some("write_byte(len)");
+                } else if catch_unwind(AssertUnwindSafe(|| c.copy_from_slice(&too_long))).is_ok() {
+                    oob_accepted = Some("copy_from_slice(len + 1 bytes)");
+                } else if catch_unwind(AssertUnwindSafe(|| c[..l + 1].len())).is_ok() {
+                    oob_accepted = Some("index ..len+1");
+                } else if catch_unwind(AssertUnwindSafe(|| c[l + 1..].len())).is_ok() {
+                    oob_accepted = Some("index len+1..");
+                }
+                if oob_accepted.is_some() {
+                    return;
+                }
+            }
             let mut p = 0;
             while p < bytes.len() {
                 let c = b.chunk_mut();
@@ -725,6 +789,10 @@ fn do_wop<B: BufMut>(cx: &mut WCtx, b: &mut B, tm: &mut Tm, written: &mut Vec<u8
             }
         }
     }));
+    if let Some(what_api) = oob_accepted {
+        cx.v(&["C11"], "uninit-slice-out-of-bounds-accepted", format!("{}: UninitSlice::{} on the chunk returned by chunk_mut() did not panic", what, what_api));
+        return WFlow::End;
+    }
     match r {
         Ok(()) => {
             if must_panic_args {
@@ -902,7 +970,13 @@ pub fn run(plan: &J, given: Option<&[J]>, rng: &mut Rng, max_ops: usize, journal
                         {
                             let mut c = (&mut node).chain_mut(&mut *payload);
                             wcheck(&mut cx, &mut c, &sub, "chain_mut(tmp)");
-                            f = if cx.viol.len() == nv { do_wop(&mut cx, &mut c, &mut sub, &mut written, &mut puts, &inner, "chain_mut(tmp)") } else { WFlow::End };
+                            f = if cx.viol.len() != nv {
+                                WFlow::End
+                            } else if inner.str("op") == Some("cross") {
+                                cross_write(&mut cx, &mut c, &mut sub, &mut written, &inner)
+                            } else {
+                                do_wop(&mut cx, &mut c, &mut sub, &mut written, &mut puts, &inner, "chain_mut(tmp)")
+                            };
                             if cx.viol.len() == nv {
                                 if let WFlow::Continue | WFlow::Refused = f {
                                     wcheck(&mut cx, &mut c, &sub, "chain_mut(tmp) after op");
